@@ -178,6 +178,13 @@ impl<'a> TypedGen<'a> {
                     let any = *t.pick(&[Ty::Int, Ty::Real, Ty::Text, Ty::Bool, Ty::Ts, Ty::Iv, Ty::IntArr]);
                     E::Is { not: t.chance(1, 2), l: Box::new(self.gen(t, any, d)), r: Box::new(E::Null) }
                 }
+                5 if t.chance(1, 6) => {
+                    // TIMESTAMP IN (text literals): the same coercion as `ts = 'text'`
+                    let x = self.gen(t, Ty::Ts, d);
+                    let n = 1 + t.draw(3);
+                    let list = (0..n).map(|_| if t.chance(1, 4) { self.gen(t, Ty::Ts, d.min(1)) } else { E::Str(t.pick(&TS_LITERALS).to_string()) }).collect();
+                    E::In { not: t.chance(1, 2), x: Box::new(x), list }
+                }
                 5 => {
                     let ety = *t.pick(&[Ty::Int, Ty::Int, Ty::Text, Ty::Real]);
                     let n = 1 + t.draw(4);
